@@ -154,18 +154,22 @@ Definition parse_unsigned (s : bytes) : option N :=
 (** [<u32 as FromStr>::from_str] / [<i64 as FromStr>::from_str]: optional sign ('+' only for u32),
     at least one digit, no other character, value in range.  (Rust checks the range digit by digit;
     prefixes of a digit string have smaller values, so the final test is the same.) *)
+Definition is_ni64 (t : numty) : bool := match t with NI64 => true | NU32 => false end.
+
 Definition parse_int_str (t : numty) (s : bytes) : option Z :=
-  match t, s with
-  | NI64, 45 :: r =>
-      match parse_unsigned r with
-      | Some n => visit_int NI64 (- Z.of_N n)
-      | None => None
-      end
-  | _, 43 :: r | _, r =>
-      match parse_unsigned r with
-      | Some n => visit_int t (Z.of_N n)
-      | None => None
-      end
+  match s with
+  | [] => None
+  | c :: r =>
+      if (c =? 45) && is_ni64 t then                      (* '-': signed types only *)
+        match parse_unsigned r with
+        | Some n => visit_int t (- Z.of_N n)
+        | None => None
+        end
+      else
+        match parse_unsigned (if c =? 43 then r else s) with      (* '+' *)
+        | Some n => visit_int t (Z.of_N n)
+        | None => None
+        end
   end.
 
 (** leading digits of a string and the rest *)
@@ -185,10 +189,19 @@ Inductive fstr := FNotNumber | FInfNan | FDec (m e : Z).
 (** [<f64 as FromStr>::from_str] (core::num::dec2flt):
       Float ::= Sign? ( 'inf' | 'infinity' | 'nan' | Number )      (case-insensitive words)
       Number ::= ( Digit+ | Digit+ '.' Digit* | Digit* '.' Digit+ ) Exp?      Exp ::= [eE] Sign? Digit+ *)
+Definition strip_sign (s : bytes) : bool * bytes :=
+  match s with
+  | c :: r => if c =? 45 then (true, r) else if c =? 43 then (false, r) else (false, s)
+  | [] => (false, [])
+  end.
+
 Definition parse_f64_str (s : bytes) : fstr :=
-  let '(neg, s1) := match s with 45 :: r => (true, r) | 43 :: r => (false, r) | _ => (false, s) end in
+  let '(neg, s1) := strip_sign s in
   let '(ip, r1) := span_digits s1 in
-  let '(fp, r2) := match r1 with 46 :: r => span_digits r | _ => ([], r1) end in
+  let '(fp, r2) := match r1 with
+                   | c :: r => if c =? 46 then span_digits r else ([], r1)       (* '.' *)
+                   | [] => ([], r1)
+                   end in
   let words := map lower s1 in
   if (length ip + length fp =? 0)%nat then
     if beq words [110; 97; 110] || beq words [105; 110; 102] || beq words [105; 110; 102; 105; 110; 105; 116; 121]
@@ -200,8 +213,8 @@ Definition parse_f64_str (s : bytes) : fstr :=
     match r2 with
     | [] => FDec m e0
     | c :: r =>
-        if (c =? 101) || (c =? 69) then
-          let '(eneg, r') := match r with 45 :: t => (true, t) | 43 :: t => (false, t) | _ => (false, r) end in
+        if (c =? 101) || (c =? 69) then                                          (* 'e' 'E' *)
+          let '(eneg, r') := strip_sign r in
           match parse_unsigned r' with
           | Some x => FDec m (e0 + (if eneg then - Z.of_N x else Z.of_N x))%Z
           | None => FNotNumber
